@@ -218,18 +218,19 @@ class _Var:
             e.assume(_not(codes_eq(self.ref, a)))  # REF != ALT
         for a, b in itertools.combinations(self.alts, 2):
             e.assume(_not(codes_eq(a, b)))
-        # the variant's normalised form per allele: longest common suffix removed, then longest common prefix
-        self.norm = [None]
-        for a in self.alts:
-            pos, ref, alt = self.pos, list(self.ref), list(a)
-            while ref and alt and char_eq(ref[-1], alt[-1]):
-                ref.pop()
-                alt.pop()
-            while ref and alt and char_eq(ref[0], alt[0]):
-                ref.pop(0)
-                alt.pop(0)
-                pos += 1
-            self.norm.append((pos, ref, alt))
+        # the variant's normalised form: the longest suffix common to REF and all ALTs removed, then the
+        # longest common prefix (the position moves with the prefix); one footprint (pos, ref, alt) per ALT
+        pos, ref, alts = self.pos, list(self.ref), [list(a) for a in self.alts]
+        while ref and all(alts) and all(char_eq(ref[-1], a[-1]) for a in alts):
+            ref.pop()
+            for a in alts:
+                a.pop()
+        while ref and all(alts) and all(char_eq(ref[0], a[0]) for a in alts):
+            ref.pop(0)
+            for a in alts:
+                a.pop(0)
+            pos += 1
+        self.norm = [None] + [(pos, ref, a) for a in alts]
 
     def nkind(self, h):
         pos, ref, alt = self.norm[h]
@@ -366,6 +367,58 @@ def _coverage(v, rs, re, skip):
     return "full" if full else "partial"
 
 
+def _well_defined(v, others):
+    """The haplotype carries one of v's alleles: no OTHER carried difference
+    (normalised (pos, ref, alt)) overlaps v's record / normalised footprint, lies
+    strictly inside it, or - indel against indel - touches it."""
+    norms = v.norm[1:]
+    lo = min([v.pos] + [n[0] for n in norms])
+    hi = max([v.pos + len(v.ref)] + [n[0] + len(n[1]) for n in norms])
+    for pj, rj, aj in others:
+        ej = pj + len(rj)
+        if rj and pj < hi and ej > lo:
+            return False
+        if not rj and lo < pj < hi:
+            return False
+        if len(rj) != len(aj):
+            for qi, ri, ai in norms:
+                if len(ri) != len(ai) and pj <= qi + len(ri) and ej >= qi:
+                    return False
+    return True
+
+
+def _hap_seq(R, norms):
+    """Haplotype over the whole reference for the carried normalised differences; None if they collide."""
+    out, cur = [], 0
+    for pos, ref, alt in sorted(norms, key=lambda c: (c[0], len(c[1]))):
+        if pos < cur:
+            return None
+        out += R[cur:pos] + alt
+        cur = pos + len(ref)
+    return out + R[cur:]
+
+
+def _identifiable(R, variants, carried, i):
+    """No assignment of alleles with a different allele at variant i yields the same haplotype sequence.
+    (Symbolic: the comparison of equally long sequences forks on the bases.)"""
+    from vf.models.symstr import codes_eq
+
+    H = _hap_seq(R, [v.norm[h] for v, h in zip(variants, carried) if h > 0])
+    others = [j for j in range(len(variants)) if j != i]
+    for a in range(len(variants[i].alts) + 1):
+        if a == carried[i]:
+            continue
+        for combo in itertools.product(*[range(len(variants[j].alts) + 1) for j in others]):
+            assign = dict(zip(others, combo))
+            assign[i] = a
+            G = _hap_seq(R, [variants[j].norm[assign[j]] for j in range(len(variants)) if assign[j] > 0])
+            if G is None or len(G) != len(H):
+                continue
+            if codes_eq(G, H):
+                return False
+    return True
+
+
 class _C06Base(SubCheck):
     sources = ["whatshap/variants.py", "whatshap/_variants.pyx", "whatshap/align.pyx", "whatshap/vcf.py", "whatshap/bam.py"]
     encoded = [
@@ -480,12 +533,22 @@ class _C06Base(SubCheck):
                     continue
                 h = carried[i]
                 cov = [_coverage(v, a["rs"], a["re"], a.get("deco", {}).get("skip")) for a in als]
-                info = lambda: dict(ctx(), read=name, variant=v.describe(e, h), recorded=rec.get(v.pos), coverage=cov, features=_features(e, mode, ov, R, v, h, als, [a for a in alns if a[0] == name]))
+                info = lambda: dict(ctx(), read=name, variant=v.describe(e, h), recorded=rec.get(v.pos), coverage=cov, features=_features(e, mode, ov, R, v, h, als, [a for a in alns if a[0] == name], [w.norm[hw] for j, (w, hw) in enumerate(zip(variants, carried)) if j != i and hw > 0]))
                 if all(c == "none" for c in cov):
                     e.cover("variant outside the read")
                     e.check(v.pos not in rec, "(B) allele recorded for a variant the read does not overlap", info)
                     continue
                 if "partial" in cov or "full" not in cov:
+                    continue
+                if not _well_defined(v, [w.norm[hw] for j, (w, hw) in enumerate(zip(variants, carried)) if j != i and hw > 0]):
+                    # another difference of the haplotype sits on this variant's site: the haplotype has
+                    # neither allele of this record there, "the allele that haplotype carries" is undefined
+                    e.cover("variant site hit by another difference (no claim)")
+                    continue
+                if not _identifiable(R, variants, carried, i):
+                    # the same bases are also an exact copy of a haplotype with another allele of this
+                    # variant (equivalent indels in a repeat, differences that cancel): nothing to claim
+                    e.cover("bases also explained by the other allele (no claim)")
                     continue
                 # colliding carried variants make the true allele ill-defined: none here (assumed above)
                 r = rec.get(v.pos)
@@ -541,7 +604,7 @@ class _C06Base(SubCheck):
         return "%s:%s:%s" % (self.name, violation["msg"], info.get("features", "mode=%s;ov=%s" % (shape.get("mode"), shape.get("ov"))))
 
 
-def _features(e, mode, ov, R, v, h, als, alns):
+def _features(e, mode, ov, R, v, h, als, alns, others=()):
     """Signature features of a violation: what kind of variant, which allele,
     where relative to the read, which CIGAR operators."""
     f = ["mode=%s" % mode]
@@ -563,10 +626,29 @@ def _features(e, mode, ov, R, v, h, als, alns):
         if any(a["re"] == v.pos + len(v.ref) for a in als):
             f.append("at_last_aligned_base")
     ops = sorted(set(OPCH[op] for a in alns for op, l in a[3]))
+    if v is not None and mode == "realign":
+        for a in als:
+            sk = a.get("deco", {}).get("skip")
+            if sk is not None and sk[0] <= v.pos + len(v.ref) + ov and sk[1] >= v.pos - ov:
+                f.append("reference_skip_in_or_next_to_window")
+                break
+    if v is not None and others:
+        lo, hi = v.pos - ov - 1, v.pos + len(v.ref) + ov + 1
+        if mode == "realign" and any(pos <= hi and pos + len(ref) >= lo for pos, ref, alt in others):
+            f.append("other_carried_difference_in_or_next_to_window")
+        q = v.norm[max(h, 1)][0]
+        if mode == "cigar" and any(not ref and pos < q < pos + len(alt) for pos, ref, alt in others):
+            f.append("insertion_variant_within_k_bases_after_a_k_base_insertion" if not v.norm[max(h, 1)][1] else "variant_within_k_bases_after_a_k_base_insertion")
     f.append("cigar_ops=%s" % "".join(ops))
     if len(alns) > 1:
         f.append("alignments=%d" % len(alns))
         f.append("orientations=%s" % "".join("R" if a[1] & 16 else "F" for a in alns))
+        if v is not None:
+            cov = [k for k, a in enumerate(als) if _coverage(v, a["rs"], a["re"], a.get("deco", {}).get("skip")) == "full"]
+            f.append("covering_mates=%s" % "".join(map(str, cov)))
+            last = als[-1].get("flag", 0) & 16
+            if cov and all((als[k].get("flag", 0) & 16) != last for k in cov):
+                f.append("covering_mates_have_other_orientation_than_last_mate")
     return ";".join(f)
 
 
@@ -589,6 +671,8 @@ KINDS = {
     "del2": ("del", 2, 1, 0),
     "del1_padded": ("del", 1, 1, 1),
     "del2_ranchor": ("del", 2, 0, 1),
+    "snv_multi": ("snv", 1, 0, 0, 2),
+    "ins1_multi": ("ins", 1, 1, 0, 2),
 }
 DECOS = {
     "plain": {},
@@ -598,8 +682,9 @@ DECOS = {
 }
 
 
-def _mk_var(e, R, tag, kname, p, nalt=1):
-    kind, k, lpad, rpad = KINDS[kname]
+def _mk_var(e, R, tag, kname, p):
+    kind, k, lpad, rpad = KINDS[kname][:4]
+    nalt = KINDS[kname][4] if len(KINDS[kname]) > 4 else 1
     return _Var(e, R, tag, kind, p, k, lpad, rpad, nalt)
 
 
@@ -624,20 +709,25 @@ class One(_C06Base):
     def shapes(self, tier):
         out = []
         L = 6 if tier == "quick" else 8
-        ovs = [0, 2] if tier == "quick" else [0, 1, 2, 3]
+        ovs = [0, 1, 2] if tier == "quick" else [0, 1, 2, 3]
         modes = [("cigar", 0)] + [("realign", ov) for ov in ovs]
         for mode, ov in modes:
             for kname in KINDS:
-                for h in (0, 1):
+                nalt = KINDS[kname][4] if len(KINDS[kname]) > 4 else 1
+                for h in range(nalt + 1):
                     for deco in DECOS:
-                        if tier == "quick" and deco != "plain" and kname not in ("snv", "ins1", "del2", "mnp2"):
+                        if deco != "plain" and (ov == 0 and mode == "realign"):
+                            continue
+                        if tier == "quick" and deco != "plain" and (kname not in ("snv", "ins1", "del2", "mnp2") or ov == 1):
+                            continue
+                        if tier == "quick" and kname.endswith(("_padded", "_ranchor")) and ov == 1:
                             continue
                         out.append(dict(mode=mode, ov=ov, kind=kname, h=h, deco=deco, L=L))
         return out
 
     def bounds(self, tier):
         L = 6 if tier == "quick" else 8
-        return "reference of %d symbolic bases; one variant of each kind in %s at every position; one read over every interval [rs, re) of the reference; decorations %s; carried allele ref/alt; without reference and with reference for overhang %s (the default overhang 10 exceeds the reference length and is outside the bound)" % (L, sorted(KINDS), sorted(DECOS), "0,2" if tier == "quick" else "0..3")
+        return "reference of %d symbolic bases; one variant of each kind in %s at every position; one read over every interval [rs, re) of the reference; decorations %s; every carried allele (ref/alt, second alt of the two multi-allelic kinds); without reference and with reference for overhang %s (overhang 0 without decorations; the default overhang 10 exceeds the reference length and is outside the bound)" % (L, sorted(KINDS), sorted(DECOS), "0..2" if tier == "quick" else "0..3")
 
     def harness(self, e, shape, impl):
         L = shape["L"]
@@ -654,7 +744,152 @@ class One(_C06Base):
         self.scenario(e, impl, mode=shape["mode"], ov=shape["ov"], R=R, variants=[v], carried=[shape["h"]], listed=[True], reads=reads)
 
 
-SUBCHECKS.update({c.name: c for c in [One()]})
+CORE_KINDS = ["snv", "mnp2", "ins1", "ins2", "del1", "del2"]
+
+
+class Two(_C06Base):
+    """Two variants inside one read that spans the whole reference: every pair
+    of kinds, every pair of positions (adjacent, one base apart, overlapping
+    records), both listed or the second one an unrelated (unlisted) difference
+    of the haplotype."""
+
+    name = "two"
+    required_cover = [
+        "fully covered snv carried=alt",
+        "fully covered ins carried=alt",
+        "fully covered del carried=alt",
+        "detection required (realign)",
+        "detection required (cigar)",
+        "carried allele detected",
+        "unrelated indel next to the variant",
+        "two listed variants one base apart or closer",
+    ]
+
+    def shapes(self, tier):
+        out = []
+        L = 6 if tier == "quick" else 8
+        ovs = [1, 2] if tier == "quick" else [1, 2, 3]
+        modes = [("cigar", 0)] + [("realign", ov) for ov in ovs]
+        for mode, ov in modes:
+            for k1 in CORE_KINDS:
+                for k2 in CORE_KINDS:
+                    for listed, hs in (((True, True), [(0, 0), (0, 1), (1, 0), (1, 1)]), ((True, False), [(0, 1), (1, 1)]), ((False, True), [(1, 0), (1, 1)])):
+                        if tier == "quick" and ov == 2 and not all(listed):
+                            continue
+                        for h in hs:
+                            out.append(dict(mode=mode, ov=ov, kinds=[k1, k2], listed=list(listed), h=list(h), L=L))
+        return out
+
+    def bounds(self, tier):
+        L = 6 if tier == "quick" else 8
+        return "reference of %d symbolic bases, read over the whole reference; ordered pairs of variant kinds from %s at all positions p1 <= p2; both listed / one of them an unlisted difference carried by the haplotype; all carried-allele combinations; without reference and with reference for overhang %s" % (L, CORE_KINDS, "1,2" if tier == "quick" else "1..3")
+
+    def harness(self, e, shape, impl):
+        L = shape["L"]
+        R = [_base(e, "r%d" % i) for i in range(L)]
+        pairs = [(a, b) for a in range(L + 1) for b in range(a, L + 1)]
+        p1, p2 = e.choice("pp", pairs)
+        v1 = _mk_var(e, R, "v", shape["kinds"][0], p1)
+        v2 = _mk_var(e, R, "w", shape["kinds"][1], p2)
+        if not (v1.ok and v2.ok):
+            e.assume(False)
+        listed, h = shape["listed"], shape["h"]
+        n1, n2 = v1.norm[1], v2.norm[1]
+        gap = n2[0] - (n1[0] + len(n1[1]))
+        if not all(listed) and -1 <= gap <= 1:
+            e.cover("unrelated indel next to the variant")
+        if all(listed) and gap <= 1:
+            e.cover("two listed variants one base apart or closer")
+        self.scenario(e, impl, mode=shape["mode"], ov=shape["ov"], R=R, variants=[v1, v2], carried=h, listed=listed, reads={"r": [dict(rs=0, re=L, flag=0)]})
+
+
+class Skip(_C06Base):
+    """One variant and a read with a reference skip (N) at every place."""
+
+    name = "skip"
+    required_cover = ["fully covered snv carried=alt", "fully covered ins carried=alt", "fully covered del carried=ref", "variant right after the skip", "variant right before the skip", "carried allele detected"]
+
+    def shapes(self, tier):
+        L = 7 if tier == "quick" else 9
+        ovs = [1, 2] if tier == "quick" else [1, 2, 3]
+        return [dict(mode=m, ov=ov, kind=k, h=h, L=L) for m, ov in [("cigar", 0)] + [("realign", o) for o in ovs] for k in CORE_KINDS for h in (0, 1)]
+
+    def bounds(self, tier):
+        L = 7 if tier == "quick" else 9
+        return "reference of %d symbolic bases, read over the whole reference with one reference skip [a, b) of 1-2 bases at every place, one variant of each kind in %s at every position" % (L, CORE_KINDS)
+
+    def harness(self, e, shape, impl):
+        L = shape["L"]
+        R = [_base(e, "r%d" % i) for i in range(L)]
+        p = e.choice("p", range(L + 1))
+        v = _mk_var(e, R, "v", shape["kind"], p)
+        if not v.ok:
+            e.assume(False)
+        skips = [(a, a + n) for n in (1, 2) for a in range(1, L - n)]
+        skip = e.choice("skip", skips)
+        if v.pos == skip[1]:
+            e.cover("variant right after the skip")
+        if v.pos + len(v.ref) == skip[0]:
+            e.cover("variant right before the skip")
+        self.scenario(e, impl, mode=shape["mode"], ov=shape["ov"], R=R, variants=[v], carried=[shape["h"]], listed=[True], reads={"r": [dict(rs=0, re=L, flag=0, deco={"skip": skip})]})
+
+
+ORIENT = {
+    # (flag of the left mate, flag of the right mate)
+    "FR": (99, 147),  # proper pair: left mate forward (first in pair), right mate reverse
+    "RF": (83, 163),
+    "FF": (67, 131),
+    "RR": (115, 179),
+}
+
+
+class Paired(_C06Base):
+    """A mate pair (two alignments with one name) over two variants: each mate
+    covers one of them or both."""
+
+    name = "paired"
+    required_cover = ["fully covered snv carried=alt", "variant covered by the left mate only", "variant covered by the right mate only", "variant covered by both mates", "carried allele detected"]
+
+    def shapes(self, tier):
+        L = 7 if tier == "quick" else 8
+        kinds = ["snv", "ins1", "del2"] if tier == "quick" else CORE_KINDS
+        out = []
+        for m, ov in [("cigar", 0), ("realign", 1)] + ([] if tier == "quick" else [("realign", 2)]):
+            for o in ORIENT:
+                for k in kinds:
+                    for h in ((0, 0), (0, 1), (1, 0), (1, 1)):
+                        out.append(dict(mode=m, ov=ov, orient=o, kinds=["snv", k], h=list(h), L=L))
+        return out
+
+    def bounds(self, tier):
+        L = 7 if tier == "quick" else 8
+        return "reference of %d symbolic bases; an SNV followed by a second variant; two mates [0, m1) and [m2, %d) in four layouts (apart, touching, overlapping, both over the whole reference); orientations %s; all carried-allele combinations" % (L, L, sorted(ORIENT))
+
+    def harness(self, e, shape, impl):
+        L = shape["L"]
+        R = [_base(e, "r%d" % i) for i in range(L)]
+        pairs = [(a, b) for a in range(L + 1) for b in range(a + 1, L + 1)]
+        p1, p2 = e.choice("pp", pairs)
+        v1 = _mk_var(e, R, "v", shape["kinds"][0], p1)
+        v2 = _mk_var(e, R, "w", shape["kinds"][1], p2)
+        if not (v1.ok and v2.ok):
+            e.assume(False)
+        # mates [0, m1) and [m2, L): apart, touching, overlapping, both over everything
+        m1, m2 = e.choice("mates", [(L // 2, L // 2 + 1), (L // 2 + 1, L // 2 + 1), (L // 2 + 2, L // 2 - 1), (L, 0)])
+        fl, fr = ORIENT[shape["orient"]]
+        reads = {"p": [dict(rs=0, re=m1, flag=fl), dict(rs=m2, re=L, flag=fr)]}
+        for v in (v1, v2):
+            c = [_coverage(v, 0, m1, None), _coverage(v, m2, L, None)]
+            if c == ["full", "none"]:
+                e.cover("variant covered by the left mate only")
+            if c == ["none", "full"]:
+                e.cover("variant covered by the right mate only")
+            if c == ["full", "full"]:
+                e.cover("variant covered by both mates")
+        self.scenario(e, impl, mode=shape["mode"], ov=shape["ov"], R=R, variants=[v1, v2], carried=shape["h"], listed=[True, True], reads=reads)
+
+
+SUBCHECKS.update({c.name: c for c in [One(), Two(), Skip(), Paired()]})
 
 if __name__ == "__main__":
     import sys
